@@ -215,9 +215,11 @@ class Run:
             if variant == 'finalizer_stats':
                 def cb(stats):
                     self.fin_calls[i] += 1
+                    self.log.append(['fin', i])
             else:
                 def cb():
                     self.fin_calls[i] += 1
+                    self.log.append(['fin', i])
             return DF.finalizer(cb)
         if k == 'fault':
             self.excs[i] = make_exc(st['cls'])
@@ -440,3 +442,16 @@ def check_traces(rep, items, clause, swallow_cast=False):
         rep.sample(dict(engine_trace=dict(steps=traces[0]['steps'], variants=traces[0]['variants'],
                                           mode=traces[0]['mode'], events=traces[0]['ev'][:12], fin=traces[0]['fin'])))
     return traces, verdicts
+
+
+def well_typed(steps):
+    """delete_resource(0) needs a resource to delete (Engine!WellTyped)"""
+    n = 0
+    for s in steps:
+        if s['kind'] == 'src':
+            n += 1
+        elif s['kind'] == 'del':
+            if n < 1:
+                return False
+            n -= 1
+    return True
